@@ -2055,6 +2055,87 @@ def install(ex):
                 acc = z3.If(v >= acc, v, acc) if want_max else z3.If(v < acc, v, acc)
             yield Some(z3.simplify(acc))
 
+    @model(r"as Iterator>::flat_map(::<.*>)?$", "Iterator::flat_map: the closure's result is iterated to its end before the next outer item is taken")
+    def it_flat_map(ex, callee, args, rt):
+        outer = make_iter(ex, args[0], False) if not isinstance(ex.deref(args[0]), IterObj) else args[0]
+        f = args[1]
+        state = IterObj("custom", next=None)
+        state.cur = None
+
+        def nxt(ex_, it_):
+            if state.cur is not None:
+                for o in iter_next(ex_, state.cur):
+                    if o.variant == "Some":
+                        yield o
+                    else:
+                        tset(state, "cur", None)
+                        yield from nxt(ex_, it_)
+                return
+            for o in iter_next(ex_, outer):
+                if o.variant == "None":
+                    yield NONE
+                    continue
+                for r in ex_.call_closure(f, [o.fields[0]]):
+                    tset(state, "cur", make_iter(ex_, r, False) if not isinstance(ex_.deref(r), IterObj) else r)
+                    yield from nxt(ex_, it_)
+        state.next = nxt
+        yield state
+
+    @model(r"as Iterator>::map_while(::<.*>)?$", "Iterator::map_while: ends at the first item the closure maps to None")
+    def it_map_while(ex, callee, args, rt):
+        inner = make_iter(ex, args[0], False) if not isinstance(ex.deref(args[0]), IterObj) else args[0]
+        f = args[1]
+        state = IterObj("custom", next=None)
+        state.done = False
+
+        def nxt(ex_, it_):
+            if state.done:
+                yield NONE
+                return
+            for o in iter_next(ex_, inner):
+                if o.variant == "None":
+                    yield NONE
+                    continue
+                for r in ex_.call_closure(f, [o.fields[0]]):
+                    for v in enum_branch(ex_, r, ["Some", "None"]):
+                        if v == "Some":
+                            yield Some(variant_field(ex_, r, "Some", 0))
+                        else:
+                            tset(state, "done", True)
+                            yield NONE
+        state.next = nxt
+        yield state
+
+    @model(r"^(std|core)::iter::once(::<.*>)?$|^once(::<.*>)?$", "iter::once")
+    def it_once(ex, callee, args, rt):
+        yield IterObj("seq", seq=new_seq(ex, [args[0]]), pos=0, by_ref=False, mut=False)
+
+    @model(r"as Iterator>::take_while(::<.*>)?$", "Iterator::take_while: ends at (and consumes) the first item the predicate rejects")
+    def it_take_while(ex, callee, args, rt):
+        inner = make_iter(ex, args[0], False) if not isinstance(ex.deref(args[0]), IterObj) else args[0]
+        f = args[1]
+        state = IterObj("custom", next=None)
+        state.done = False
+
+        def nxt(ex_, it_):
+            if state.done:
+                yield NONE
+                return
+            for o in iter_next(ex_, inner):
+                if o.variant == "None":
+                    yield NONE
+                    continue
+                x = o.fields[0]
+                for keep in ex_.call_closure(f, [Ref(Cell(x))]):
+                    for b in ex_.branches([keep, z3.Not(keep)]):
+                        if b == 0:
+                            yield Some(x)
+                        else:
+                            tset(state, "done", True)
+                            yield NONE
+        state.next = nxt
+        yield state
+
     @model(r"as Iterator>::zip(::<.*>)?$", "Iterator::zip: pairs until either side ends (the left side is advanced first, as in std)")
     def it_zip(ex, callee, args, rt):
         a = make_iter(ex, args[0], False) if not isinstance(ex.deref(args[0]), IterObj) else args[0]
